@@ -31,7 +31,7 @@ ASSUMPTIONS = [
     "cert block image_length: elftosb counts the optional SHA-256, SPSDK does not; both accepted",
     "certificate chains use one RSA size per chain (mixed sizes are exercised by C02)",
 ]
-FLOORS = {"fmt:2.1": 0.12, "fmt:2.0s": 0.04, "load_unaligned": 0.1, "multi_section": 0.1}
+FLOORS = {"fmt:2.1": 0.12, "fmt:2.0s": 0.04, "load_unaligned": 0.1, "multi_section": 0.1, "cfg": 0.05, "certs_as:config": 0.02}
 
 GOLD = os.path.join(VERIF_DIR, "fixtures", "golden", "sb2")
 EXT_MEM_TAGS = [1, 8, 9, 10, 11, 16]  # ExtMemId tags <= 0xFF (the key-store commands accept only those)
@@ -560,5 +560,203 @@ def _classify(case, o: Oracle, fmt: str) -> None:
               "product": case["product"], "component": case["component"], "build": case["build"]})
 
 
+
+# ------------------------------------------------------------------ configuration path (what `nxpimage sb21 export` runs after parsing a BD / YAML file)
+def _cfg_case():
+    cmd = st.one_of(
+        st.fixed_dictionaries({"c": st.just("load"), "address": _U32, "data": _load_data().filter(lambda b: len(b) > 0), "mem_id": st.just(0), "zero": st.just(False)}),
+        st.fixed_dictionaries({"c": st.just("jump"), "address": _U32, "argument": _U32, "spreg": st.one_of(st.none(), _U32)}),
+        st.fixed_dictionaries({"c": st.just("call"), "address": _U32, "argument": _U32}),
+        st.fixed_dictionaries({"c": st.just("erase"), "address": _U32, "length": _U32, "flags": st.sampled_from([0, 1, 2]), "mem_id": st.just(0)}),
+        st.fixed_dictionaries({"c": st.just("reset")}),
+        st.fixed_dictionaries({"c": st.just("vercheck"), "type": st.sampled_from([0, 1]), "version": _U32}),
+    )
+    opt32 = st.one_of(st.none(), st.binary(min_size=32, max_size=32))
+    return st.fixed_dictionaries({
+        "sections": st.lists(st.fixed_dictionaries({"uid": st.one_of(st.integers(0, 5), _U32), "commands": st.lists(cmd, min_size=1, max_size=4)}),
+                             min_size=1, max_size=3, unique_by=lambda x: x["uid"]),
+        "flags": st.sampled_from([8, 0x8008, "0x8", "0x8008", None]),
+        "product": st.one_of(st.none(), _version()), "component": st.one_of(st.none(), _version()),
+        "build": st.one_of(st.none(), st.integers(0, 0xFFFFFFFF)),
+        "dek": opt32, "mac": opt32, "nonce": st.one_of(st.none(), st.binary(min_size=16, max_size=16)),
+        "zero_padding": st.booleans(), "timestamp": st.one_of(st.none(), st.integers(946684800, 4102444800)),
+        "kek": st.binary(min_size=32, max_size=32).filter(lambda b: b[0] != 0), "kek_as": st.sampled_from(["file", "config"]),
+        "rsa_bits": st.sampled_from([2048, 2048, 4096]), "chain": st.lists(st.integers(0, 7), min_size=1, max_size=2, unique=True),
+        "rkh_slot": st.integers(0, 3), "other_roots": st.lists(st.integers(0, 7), max_size=3),
+        "certs_as": st.sampled_from(["arguments", "config"]), "twice": st.booleans(),
+        "main_id_given": st.booleans(), "key_name": st.sampled_from(["sign", "main"]), "main_id_as": st.sampled_from(["int", "str"]),
+    })
+
+
+_CFGN = [0]
+
+
+def run_cfg_case(case, o: Oracle) -> None:
+    """BootImageV21.load_from_config on the dictionary form of a BD / YAML file, with key and certificate files."""
+    import shutil
+
+    from spsdk.sbfile.sb2.images import BootImageV21
+
+    _CFGN[0] += 1
+    wd = os.path.join(_WORK.get("dir") or ".", "c04cfg-%d-%d" % (os.getpid(), _CFGN[0]))
+    os.makedirs(wd, exist_ok=True)
+    try:
+        _run_cfg(case, o, wd, BootImageV21)
+    finally:
+        shutil.rmtree(wd, ignore_errors=True)
+
+
+def _run_cfg(case, o: Oracle, wd: str, BootImageV21) -> None:
+    bits = case["rsa_bits"]
+    idx = list(dict.fromkeys(i % K.RSA_POOL[bits] for i in case["chain"]))
+    chain_keys = [K.rsa_key(bits, i) for i in idx]
+    certs = K.make_chain(chain_keys, cn_prefix="cfg%d" % bits)
+    chain_paths = []
+    for i, c in enumerate(certs):
+        pth = os.path.join(wd, "chain%d.der" % i)
+        open(pth, "wb").write(K.cert_der(c))
+        chain_paths.append(pth)
+    slot = case["rkh_slot"]
+    root_keys = {slot: chain_keys[0]}
+    for s_, oi in zip([x for x in range(4) if x != slot], case["other_roots"]):
+        k = K.rsa_key(bits, oi % K.RSA_POOL[bits])
+        if _rkh(k) != _rkh(chain_keys[0]):
+            root_keys[s_] = k
+    # root certificates must fill the slots 0..n without gaps in the configuration form
+    n_roots = max(root_keys) + 1
+    filler = [K.rsa_key(bits, j) for j in range(K.RSA_POOL[bits])]
+    root_paths, root_hashes = [], {}
+    for s_ in range(n_roots):
+        k = root_keys.get(s_) or next(f for f in filler if _rkh(f) not in [_rkh(v) for v in root_keys.values()])
+        root_keys[s_] = k
+        pth = os.path.join(wd, "root%d.der" % s_)
+        open(pth, "wb").write(K.cert_der(K.make_cert(k, k, subject_cn="root%d" % s_, ca=(k is not chain_keys[0]) or len(chain_keys) > 1)) if k is not chain_keys[0] else K.cert_der(certs[0]))
+        root_paths.append(pth)
+        root_hashes[s_] = _rkh(k)
+    key_path = os.path.join(wd, "sign_key.pem")
+    open(key_path, "wb").write(K.private_pem(chain_keys[-1]))
+    kek = bytes(case["kek"])
+    kek_path = os.path.join(wd, "kek.txt")
+    open(kek_path, "w").write(kek.hex())
+    options: dict = {"secureBinaryVersion": "2.1"}
+    if case["flags"] is not None:
+        options["flags"] = case["flags"]
+    if case["product"] is not None:
+        options["productVersion"] = _vstr(case["product"])
+    if case["component"] is not None:
+        options["componentVersion"] = _vstr(case["component"])
+    if case["build"] is not None:
+        options["buildNumber"] = case["build"]
+    for k_ in ("dek", "mac", "nonce"):
+        if case[k_] is not None:
+            options[k_] = bytes(case[k_]).hex()
+    if case["zero_padding"]:
+        options["zeroPadding"] = True
+    if case["timestamp"] is not None:
+        options["timestamp"] = case["timestamp"]
+    sections_cfg, exp_sections = [], []
+    for si, sec in enumerate(case["sections"]):
+        cmds = []
+        for ci, c in enumerate(sec["commands"]):
+            k_ = c["c"]
+            if k_ == "load":
+                fn = "load_%d_%d.bin" % (si, ci)
+                open(os.path.join(wd, fn), "wb").write(bytes(c["data"]))
+                cmds.append({"load": {"address": c["address"], "file": fn}})
+            elif k_ == "jump":
+                d = {"address": c["address"], "argument": c["argument"]}
+                if c["spreg"] is not None:
+                    d["spreg"] = c["spreg"]
+                cmds.append({"jump": d})
+            elif k_ == "call":
+                cmds.append({"call": {"address": c["address"], "argument": c["argument"]}})
+            elif k_ == "erase":
+                cmds.append({"erase": {"address": c["address"], "length": c["length"], "flags": c["flags"]}})
+            elif k_ == "reset":
+                cmds.append({"reset": {}})
+            else:
+                cmds.append({"version_check": {"ver_type": c["type"], "fw_version": c["version"]}})
+        sections_cfg.append({"section_id": sec["uid"], "commands": cmds})
+        exp_sections.append({"uid": sec["uid"], "hmac_count": 1, "commands": [expected(dict(c, zero=case["zero_padding"]) if c["c"] == "load" else c) for c in sec["commands"]]})
+    cfg: dict = {"family": "lpc55s6x", "options": options, "sections": sections_cfg}
+    kwargs: dict = {"search_paths": [wd], "rkth_out_path": os.path.join(wd, "rkth.bin")}
+    if case["kek_as"] == "file":
+        kwargs["key_file_path"] = kek_path
+    else:
+        cfg["containerKeyBlobEncryptionKey"] = kek.hex()
+    if case["certs_as"] == "arguments":
+        kwargs.update(signing_certificate_file_paths=chain_paths, root_key_certificate_paths=root_paths, signature_provider=_signature_provider(chain_keys[-1]))
+    else:
+        for s_, pth in enumerate(root_paths):
+            cfg["rootCertificate%dFile" % s_] = os.path.basename(pth)
+        if len(chain_paths) > 1 or case["main_id_given"]:
+            cfg["mainRootCertId"] = slot if case["main_id_as"] == "int" else str(slot)
+        else:
+            o.label("main_root_found_by_key")
+        for i, pth in enumerate(chain_paths[1:]):
+            cfg["chainCertificate%dFile%d" % (slot, i)] = os.path.basename(pth)
+        # CertBlockV1 looks the root certificate up by "mainCertPrivateKeyFile" only; with an explicit id either key name works
+        cfg["signPrivateKey" if (case["key_name"] == "sign" and "mainRootCertId" in cfg) else "mainCertPrivateKeyFile"] = "sign_key.pem"
+        if case["build"] is not None:
+            cfg["imageBuildNumber"] = case["build"]
+    o.label("cfg", "certs_as:" + case["certs_as"], "kek_as:" + case["kek_as"], "flags:%s" % case["flags"])
+    if len(case["sections"]) > 1:
+        o.label("multi_section")
+    if case["component"] is not None and case["component"] != case["product"]:
+        o.label("component!=product")
+    o.nontrivial(True)
+    o.sample({"options": {k: (v if not isinstance(v, str) or len(v) < 20 else v[:16] + "..") for k, v in options.items()},
+              "sections": [{"id": s_["section_id"], "commands": [list(c)[0] for c in s_["commands"]]} for s_ in sections_cfg]})
+    exports = []
+    for rnd in range(2 if case["twice"] else 1):
+        data = None
+        with o.spsdk("config_build", "round%d" % rnd):
+            img = BootImageV21.load_from_config(cfg, **kwargs)
+            data = img.export()
+        if data is None:
+            return
+        exports.append((img, data))
+    for rnd, (img, data) in enumerate(exports):
+        try:
+            model = sb2_rom.load(data, kek)
+        except sb2_rom.Reject as exc:
+            o.fail("rom_accepts", "config_reject", "build %d: %s" % (rnd, exc))
+            continue
+        h = model["header"]
+        want_flags = 0x8008 if case["flags"] is None else int(str(case["flags"]), 0)
+        o.eq("config_header", "flags", h["flags"], want_flags)
+        o.eq("config_header", "product_version", h["product_version"], [int("%d" % n, 16) for n in (case["product"] or [1, 0, 0])])
+        o.eq("config_header", "component_version", h["component_version"], [int("%d" % n, 16) for n in (case["component"] or [1, 0, 0])])
+        want_build = case["build"] if case["build"] is not None else 1
+        if case["certs_as"] == "arguments" or case["build"] is not None:
+            o.eq("config_header", "build_number", h["build_number"], want_build)
+        if case["timestamp"] is not None:
+            o.eq("config_header", "timestamp", h["timestamp"], (case["timestamp"] - 946684800) * 1000000)
+        for k_ in ("dek", "mac"):
+            if case[k_] is not None:
+                o.eq("config_keys", k_, model[k_], bytes(case[k_]))
+        if case["nonce"] is not None:
+            o.eq("config_keys", "nonce", h["nonce"], bytes(case["nonce"]))
+        cbm = model["cert_block"]
+        o.eq("config_cert_block", "rkh_table", {i: r for i, r in enumerate(cbm.rkh) if any(r)}, root_hashes)
+        o.eq("config_cert_block", "used_root", cbm.used_root_index, slot)
+        with o.spsdk("config_cert_block", "rkth_file"):
+            o.eq("config_cert_block", "rkth_file", open(kwargs["rkth_out_path"], "rb").read(), cbm.rkth)
+        fake = {"sections": [{"commands": [dict(c, zero=case["zero_padding"]) if c["c"] == "load" else c for c in s_["commands"]]} for s_ in case["sections"]]}
+        _compare_sections("config_content", model["sections"], exp_sections, fake, o)
+    if len(exports) == 2:
+        (i1, d1), (i2, d2) = exports
+        m1, m2 = sb2_rom.load(d1, kek, check_signature=False), sb2_rom.load(d2, kek, check_signature=False)
+        for k_ in ("dek", "mac"):
+            if case[k_] is None:
+                o.check("config_keys", m1[k_] != m2[k_], "reused_" + k_, "two builds from one configuration dictionary share the self-chosen %s" % k_)
+        if case["nonce"] is None:
+            o.check("config_keys", m1["header"]["nonce"] != m2["header"]["nonce"], "reused_nonce", "two builds share the self-chosen nonce")
+
+
+_WORK: dict = {}
+
 def parts(ctx):
-    return [HypPart("sb2", _case(), run_case, {"quick": 4000, "thorough": 150000})]
+    _WORK["dir"] = ctx.work
+    return [HypPart("sb2", _case(), run_case, {"quick": 4000, "thorough": 150000}),
+            HypPart("sb21_config", _cfg_case(), run_cfg_case, {"quick": 600, "thorough": 30000})]
